@@ -795,7 +795,7 @@ pub fn check(ctx: &Ctx) {
 
     // reader side
     let lens: Vec<usize> = if quick {
-        vec![0, 1, 506, 507, 1100]
+        vec![0, 1, 2, 63, 64, 65, 505, 506, 507, 511, 512, 513, 1017, 1018, 1019, 1100, 8191, 8192, 8193]
     } else {
         vec![0, 1, 2, 63, 64, 65, 505, 506, 507, 511, 512, 513, 1017, 1018, 1019, 1100, 8191, 8192, 8193, 17000]
     };
@@ -811,9 +811,9 @@ pub fn check(ctx: &Ctx) {
                 uni(3, 7, Consumer::BufScripted),
                 uni(7, 8192, Consumer::Fixed(3)),
             ];
-            if !quick {
+            if !quick || n <= 513 {
                 scheds.extend([
-                    dev(if n <= 1100 { 2 } else { 1 }, 8192, Consumer::Scripted),
+                    dev(if n <= 1100 && !(quick && n > 65) { 2 } else { 1 }, 8192, Consumer::Scripted),
                     dev(1, 1, Consumer::Scripted),
                     dev(1, 512, Consumer::BufScripted),
                     uni(2, 8192, Consumer::Scripted),
@@ -852,7 +852,7 @@ pub fn check(ctx: &Ctx) {
         }
     }
     // a second message after the first: every consumer must end in the same error
-    for cfg in cfgs.iter().filter(|c| !c.armor && c.compression == 0).take(if quick { 6 } else { 40 }) {
+    for cfg in cfgs.iter().filter(|c| !c.armor && c.compression == 0).take(if quick { 12 } else { 40 }) {
         for n in [0usize, 100, 600] {
             for s in [
                 dev(1, 8192, Consumer::ToEnd),
@@ -893,7 +893,8 @@ pub fn check(ctx: &Ctx) {
     );
     // builder side
     let mut bc = Vec::new();
-    let blens: Vec<usize> = if quick {
+    // the builder side takes seconds at the former thorough bounds: used in both tiers
+    let blens: Vec<usize> = if false {
         vec![0, 1, 506, 507, 1100]
     } else {
         vec![0, 1, 2, 505, 506, 507, 511, 512, 513, 1018, 1019, 1100, 8192, 8193]
@@ -907,9 +908,9 @@ pub fn check(ctx: &Ctx) {
                 (uni(3, 0, Consumer::ToEnd), false),
                 (uni(511, 0, Consumer::ToEnd), false),
             ];
-            if !quick {
+            {
                 scheds.extend([
-                    (dev(if n <= 1100 { 2 } else { 1 }, 0, Consumer::ToEnd), n <= 600),
+                    (dev(if n <= 1100 && !(quick && n > 513) { 2 } else { 1 }, 0, Consumer::ToEnd), n <= 600),
                     (uni(2, 0, Consumer::ToEnd), false),
                     (uni(7, 0, Consumer::ToEnd), false),
                     (uni(513, 0, Consumer::ToEnd), false),
@@ -937,12 +938,12 @@ pub fn check(ctx: &Ctx) {
     let mut sc = Vec::new();
     for subject in 0..8u8 {
         let lens: Vec<usize> = match subject {
-            0 => if quick { vec![0, 1, 2, 3, 47, 48, 49, 767, 768, 769, 1000] } else { (0..=100).chain([766, 767, 768, 769, 770, 1535, 1536, 1537, 3000]).collect() },
+            0 => if false { vec![0, 1, 2, 3, 47, 48, 49, 767, 768, 769, 1000] } else { (0..=100).chain([766, 767, 768, 769, 770, 1535, 1536, 1537, 3000]).collect() },
             1 => vec![0],
-            2 | 3 | 7 => if quick { vec![0, 1, 511, 512, 513, 1024, 1500] } else { vec![0, 1, 2, 510, 511, 512, 513, 514, 1023, 1024, 1025, 1535, 1536, 1537, 8191, 8192, 8193] },
-            4 => if quick { vec![0, 1, 30, 200] } else { vec![0, 1, 2, 30, 63, 64, 65, 200, 1000, 9000] },
-            5 => if quick { vec![0, 1, 15, 16, 17, 8191, 8192, 8193] } else { vec![0, 1, 2, 15, 16, 17, 31, 32, 33, 8190, 8191, 8192, 8193, 8194, 16384, 16385] },
-            _ => if quick { vec![0, 1, 2, 3, 47, 48, 49, 100] } else { (0..=100).chain([767, 768, 769]).collect() },
+            2 | 3 | 7 => if false { vec![0, 1, 511, 512, 513, 1024, 1500] } else { vec![0, 1, 2, 510, 511, 512, 513, 514, 1023, 1024, 1025, 1535, 1536, 1537, 8191, 8192, 8193] },
+            4 => if false { vec![0, 1, 30, 200] } else { vec![0, 1, 2, 30, 63, 64, 65, 200, 1000, 9000] },
+            5 => if false { vec![0, 1, 15, 16, 17, 8191, 8192, 8193] } else { vec![0, 1, 2, 15, 16, 17, 31, 32, 33, 8190, 8191, 8192, 8193, 8194, 16384, 16385] },
+            _ => if false { vec![0, 1, 2, 3, 47, 48, 49, 100] } else { (0..=100).chain([767, 768, 769]).collect() },
         };
         for n in lens {
             let consumers: Vec<Consumer> = match subject {
@@ -961,11 +962,11 @@ pub fn check(ctx: &Ctx) {
         }
     }
     // all compositions of short inputs for the two small state machines fed directly
-    for n in 0..=if quick { 6 } else { 9 } {
+    for n in 0..=if quick { 8 } else { 9 } {
         sc.push(SmallCase { subject: 0, n, sched: dev(0, 8192, Consumer::ToEnd), all_compositions: true });
         sc.push(SmallCase { subject: 0, n, sched: dev(0, 8192, Consumer::Fixed(1)), all_compositions: true });
     }
-    for n in 0..=if quick { 12 } else { 16 } {
+    for n in 0..=if quick { 14 } else { 16 } {
         sc.push(SmallCase { subject: 7, n, sched: dev(0, 8192, Consumer::ToEnd), all_compositions: true });
     }
     ctx.run_space(
